@@ -1,5 +1,5 @@
 (* TsdFacts.v — lemmas about the TSD<int, TS<int>> mirror model of Coll.v. *)
-Require Import Base Coll CollFacts.
+Require Import Base Coll CollOld CollFacts.
 From Coq Require Import ZifyBool Arith.
 Local Open Scope nat_scope.
 
@@ -158,7 +158,10 @@ Definition d_insert_core (t k : Z) (s1 : tsd) : nat * bool * tsd :=
               else if c_valid (child_at s3 i)
                    then d_set_bits s3 (set_nth i true (d_add s3)) (d_rem s3) (d_mod s3) (set_nth i true (d_pub s3))
                    else s3 in
-    (i, true, mkD (d_ks s4) (d_ch s4) (d_add s4) (d_rem s4) (d_mod s4) (d_pub s4) (d_dt s4) (d_lmt s4) (rec_mod t (d_kslmt s4))).
+    let s5 := if negb (ir_constructed r) && bit i (d_pub s4) && (c_lmt (child_at s4 i) =? t)%Z
+              then d_set_bits s4 (d_add s4) (d_rem s4) (set_nth i true (d_mod s4)) (d_pub s4)
+              else s4 in
+    (i, true, mkD (d_ks s5) (d_ch s5) (d_add s5) (d_rem s5) (d_mod s5) (d_pub s5) (d_dt s5) (d_lmt s5) (rec_mod t (d_kslmt s5))).
 Lemma d_insert_key_eq t k s : d_insert_key t k s = d_insert_core t k (d_prepare t s).
 Proof. reflexivity. Qed.
 
@@ -173,7 +176,12 @@ Lemma d_insert_core_spec t k s i ch s' :
   DInv s -> d_insert_core t k s = (i, ch, s') ->
   DInv s' /\ d_dt s' = d_dt s /\ d_lmt s' = d_lmt s /\ i < ks_cap (d_ks s') /\ dst s' i = mkSlot SLive k /\
   (forall k', inDOld s' k' <-> inDOld s k') /\
-  (forall k', inP s k' -> inP s' k').
+  (forall k', inP s k' -> inP s' k') /\
+  (forall j, j <> i -> dst s' j = dst s j /\ dm s' j = dm s j /\ dp s' j = dp s j /\ child_at s' j = child_at s j) /\
+  ( (ch = false /\ dst s i = mkSlot SLive k /\ dm s' i = dm s i /\ dp s' i = dp s i /\ child_at s' i = child_at s i)
+ \/ (ch = true /\ dst s i = mkSlot SPend k /\ child_at s' i = child_at s i /\
+       (c_lmt (child_at s i) = t -> dp s' i = true -> dm s' i = true))
+ \/ (ch = true /\ s_st (dst s i) = SFree /\ child_at s' i = child0) ).
 Proof.
   intros T H. unfold d_insert_core in H.
   destruct (k_insert k (d_ks s)) as [r ks'] eqn:KI.
@@ -198,14 +206,16 @@ Proof.
     assert (VW : forall j, dst s2 j = dst s j /\ da s2 j = da s j /\ dr s2 j = dr s j /\ dm s2 j = dm s j /\ dp s2 j = dp s j /\ dv s2 j = dv s j).
     { intros j. destruct (EB j) as [B1 [B2 [B3 [B4 B5]]]]. unfold dst, da, dr, dm, dp, dv, child_at. rewrite E1, B1, B2, B3, B4, B5.
       repeat split; auto. rewrite ST2. destruct (Nat.eqb_spec j j0) as [Ej|Ej]; [rewrite Ej; symmetry; exact LV|reflexivity]. }
+    assert (VCH : forall j, child_at s2 j = child_at s j) by (intros j; unfold child_at; apply EB).
     split.
     { constructor; rewrite ?E1; auto. intros j. destruct (VW j) as [V1 [V2 [V3 [V4 [V5 V6]]]]]. rewrite V1, V2, V3, V4, V5, V6. apply B. }
     split; [exact Edt|]. split; [exact Elmt|]. split; [rewrite E1; exact Li|].
     split; [destruct (VW j0) as [V1 _]; rewrite V1; exact LV|].
-    split; intros k'; [split|]; intros [j Q]; exists j; destruct (VW j) as [V1 [V2 [V3 [V4 [V5 V6]]]]].
-    { rewrite <- V1, <- V2, <- V3, <- V5. exact Q. }
-    { rewrite V1, V2, V3, V5. exact Q. }
-    { rewrite V1, V5. exact Q. } }
+    split; [intros k'; split; intros [j Q]; exists j; destruct (VW j) as [V1 [V2 [V3 [V4 [V5 V6]]]]];
+            [rewrite <- V1, <- V2, <- V3, <- V5|rewrite V1, V2, V3, V5]; exact Q|].
+    split; [intros k' [j Q]; exists j; destruct (VW j) as [V1 [V2 [V3 [V4 [V5 V6]]]]]; rewrite V1, V5; exact Q|].
+    split; [intros j _; destruct (VW j) as [V1 [V2 [V3 [V4 [V5 V6]]]]]; rewrite V1, V4, V5, VCH; auto|].
+    left. destruct (VW j0) as [V1 [V2 [V3 [V4 [V5 V6]]]]]. rewrite V4, V5, VCH. auto. }
   (* inserted: resurrected pending slot, or a new slot *)
   assert (PRE : (ir_constructed r = false /\ dst s j0 = mkSlot SPend k) \/
                 (ir_constructed r = true /\ s_st (dst s j0) = SFree /\ find_stored (d_ks s) k = None)).
@@ -217,15 +227,17 @@ Proof.
   assert (S3 : d_ks s3 = ks' /\ length (d_ch s3) = ks_cap ks' /\ d_add s3 = d_add s2 /\ d_rem s3 = d_rem s2 /\ d_mod s3 = d_mod s2 /\
                d_pub s3 = d_pub s2 /\ d_dt s3 = d_dt s /\ d_lmt s3 = d_lmt s /\
                (forall j, j <> j0 -> nth j (d_ch s3) child0 = nth j (d_ch s) child0) /\
-               (c_valid (nth j0 (d_ch s3) child0) = if ir_constructed r then false else dv s j0)).
+               (nth j0 (d_ch s3) child0 = if ir_constructed r then child0 else child_at s j0)).
   { unfold s3. destruct (ir_constructed r); cbn [d_ks d_ch d_add d_rem d_mod d_pub d_dt d_lmt].
     - rewrite set_nth_length. repeat split; auto.
       + intros j Hj. rewrite nth_set_nth_ch. destruct (Nat.eqb_spec j j0); [contradiction|]. cbn [andb]. apply EB.
       + rewrite nth_set_nth_ch, Nat.eqb_refl, ltb_true by (rewrite Ec; exact Li). reflexivity.
     - repeat split; auto.
       + intros j Hj. apply EB.
-      + unfold dv, child_at. f_equal. apply EB. }
-  destruct S3 as [S3k [S3c [S3a [S3r [S3m [S3p [S3dt [S3lmt [S3ch S3v]]]]]]]]].
+      + unfold child_at. apply EB. }
+  destruct S3 as [S3k [S3c [S3a [S3r [S3m [S3p [S3dt [S3lmt [S3ch S3c0]]]]]]]]].
+  assert (S3v : c_valid (nth j0 (d_ch s3) child0) = if ir_constructed r then false else dv s j0).
+  { rewrite S3c0. destruct (ir_constructed r); reflexivity. }
   assert (BITS3 : forall j, bit j (d_add s3) = da s j /\ bit j (d_rem s3) = dr s j /\ bit j (d_mod s3) = dm s j /\ bit j (d_pub s3) = dp s j).
   { intros j. rewrite S3a, S3r, S3m, S3p. destruct (EB j) as [B1 [B2 [B3 [B4 _]]]]. auto. }
   assert (B0 := B j0).
@@ -246,15 +258,21 @@ Proof.
     - rewrite set_nth_length, bit_set_nth. split; auto.
       destruct (Nat.eqb_spec j j0) as [Ej|Ej]; [rewrite ltb_true by (rewrite Hl; exact Li); reflexivity|reflexivity].
     - split; auto. destruct (Nat.eqb_spec j j0) as [Ej|Ej]; [rewrite Ej|]; reflexivity. }
-  (* common tail: the final state differs from s3 only in the add / rem / pub bits of slot j0 *)
-  assert (FIN : forall ao ro po kl,
-     let sf := mkD (d_ks s3) (d_ch s3) (upd ao (d_add s3)) (upd ro (d_rem s3)) (d_mod s3) (upd po (d_pub s3)) (d_dt s3) (d_lmt s3) kl in
-     let a' := val ao (da s j0) in let r' := val ro (dr s j0) in let p' := val po (dp s j0) in
-     slot_ok SLive a' r' false p' (c_valid (nth j0 (d_ch s3) child0)) ->
+  (* common tail: the final state differs from s3 only in the add / rem / mod / pub bits of slot j0 *)
+  assert (FIN : forall ao ro mo po kl,
+     let sf := mkD (d_ks s3) (d_ch s3) (upd ao (d_add s3)) (upd ro (d_rem s3)) (upd mo (d_mod s3)) (upd po (d_pub s3)) (d_dt s3) (d_lmt s3) kl in
+     let a' := val ao (da s j0) in let r' := val ro (dr s j0) in let m' := val mo false in let p' := val po (dp s j0) in
+     slot_ok SLive a' r' m' p' (c_valid (nth j0 (d_ch s3) child0)) ->
      ((p' = true /\ a' = false) <-> (dst s j0 = mkSlot SPend k /\ dr s j0 = true)) ->
+     (ir_constructed r = false -> c_lmt (child_at s j0) = t -> p' = true -> m' = true) ->
      DInv sf /\ d_dt sf = d_dt s /\ d_lmt sf = d_lmt s /\ j0 < ks_cap (d_ks sf) /\ dst sf j0 = mkSlot SLive k /\
-     (forall k', inDOld sf k' <-> inDOld s k') /\ (forall k', inP s k' -> inP sf k')).
-  { intros ao ro po kl sf a' r' p' OK OLDIFF.
+     (forall k', inDOld sf k' <-> inDOld s k') /\ (forall k', inP s k' -> inP sf k') /\
+     (forall j, j <> j0 -> dst sf j = dst s j /\ dm sf j = dm s j /\ dp sf j = dp s j /\ child_at sf j = child_at s j) /\
+     ( (true = false /\ dst s j0 = mkSlot SLive k /\ dm sf j0 = dm s j0 /\ dp sf j0 = dp s j0 /\ child_at sf j0 = child_at s j0)
+    \/ (true = true /\ dst s j0 = mkSlot SPend k /\ child_at sf j0 = child_at s j0 /\
+          (c_lmt (child_at s j0) = t -> dp sf j0 = true -> dm sf j0 = true))
+    \/ (true = true /\ s_st (dst s j0) = SFree /\ child_at sf j0 = child0) )).
+  { intros ao ro mo po kl sf a' r' m' p' OK OLDIFF MOK.
     assert (LA : length (d_add s3) = ks_cap ks') by (rewrite S3a; exact Ea).
     assert (LR : length (d_rem s3) = ks_cap ks') by (rewrite S3r; exact Er).
     assert (LM : length (d_mod s3) = ks_cap ks') by (rewrite S3m; exact Em).
@@ -262,28 +280,30 @@ Proof.
     assert (STF : forall j, dst sf j = if j =? j0 then mkSlot SLive k else dst s j).
     { intros j. unfold dst at 1, sf. cbn [d_ks]. rewrite S3k. apply ST2. }
     assert (VF : forall j, da sf j = (if j =? j0 then a' else da s j) /\ dr sf j = (if j =? j0 then r' else dr s j) /\
-                           dm sf j = dm s j /\ dp sf j = (if j =? j0 then p' else dp s j) /\
+                           dm sf j = (if j =? j0 then m' else dm s j) /\ dp sf j = (if j =? j0 then p' else dp s j) /\
                            (j <> j0 -> dv sf j = dv s j) /\ dv sf j0 = c_valid (nth j0 (d_ch s3) child0)).
     { intros j. unfold da at 1, dr at 1, dm at 1, dp at 1, dv at 1 3, child_at, sf. cbn [d_add d_rem d_mod d_pub d_ch].
       destruct (UPD ao (d_add s3) j LA) as [_ U1]. destruct (UPD ro (d_rem s3) j LR) as [_ U2]. destruct (UPD po (d_pub s3) j LP) as [_ U3].
-      rewrite U1, U2, U3. destruct (BITS3 j) as [Q1 [Q2 [Q3 Q4]]]. rewrite Q1, Q2, Q3, Q4, BA, BR, BP.
+      destruct (UPD mo (d_mod s3) j LM) as [_ U4].
+      rewrite U1, U2, U3, U4. destruct (BITS3 j) as [Q1 [Q2 [Q3 Q4]]]. rewrite Q1, Q2, Q3, Q4, BA, BR, BP, BM, MZ.
       repeat split; auto. intros Hj. unfold dv, child_at. f_equal. apply S3ch. exact Hj. }
+    assert (VC : forall j, child_at sf j = nth j (d_ch s3) child0) by (intros j; reflexivity).
     split.
     { constructor.
       - unfold sf; cbn [d_ks]. rewrite S3k. exact K'.
       - unfold sf; cbn [d_ks d_ch]. rewrite S3k. exact S3c.
       - unfold sf; cbn [d_ks d_add]. rewrite S3k. exact (proj1 (UPD ao (d_add s3) 0 LA)).
       - unfold sf; cbn [d_ks d_rem]. rewrite S3k. exact (proj1 (UPD ro (d_rem s3) 0 LR)).
-      - unfold sf; cbn [d_ks d_mod]. rewrite S3k. exact LM.
+      - unfold sf; cbn [d_ks d_mod]. rewrite S3k. exact (proj1 (UPD mo (d_mod s3) 0 LM)).
       - unfold sf; cbn [d_ks d_pub]. rewrite S3k. exact (proj1 (UPD po (d_pub s3) 0 LP)).
       - intros j. rewrite STF. destruct (VF j) as [V1 [V2 [V3 [V4 [V5 V6]]]]]. rewrite V1, V2, V3, V4.
         destruct (Nat.eqb_spec j j0) as [Ej|Ej].
-        + rewrite Ej. cbn [s_st]. rewrite V6, MZ. exact OK.
+        + rewrite Ej. cbn [s_st]. rewrite V6. exact OK.
         + rewrite (V5 Ej). apply B. }
     split; [exact S3dt|]. split; [exact S3lmt|]. split; [unfold sf; cbn [d_ks]; rewrite S3k; exact Li|].
     split; [rewrite STF, Nat.eqb_refl; reflexivity|].
     split.
-    - intros k'. split.
+    { intros k'. split.
       + intros [j Q]. destruct (VF j) as [V1 [V2 [V3 [V4 [V5 V6]]]]]. rewrite STF, V1, V2, V4 in Q.
         destruct (Nat.eqb_spec j j0) as [Ej|Ej]; [|exists j; exact Q].
         destruct Q as [[Q1 [Q2 Q3]]|[Q1 _]]; [|discriminate].
@@ -292,35 +312,73 @@ Proof.
         destruct (Nat.eqb_spec j j0) as [Ej|Ej]; [|exact Q]. rewrite Ej in Q.
         destruct Q as [[Q1 _]|[Q1 Q2]]; [exfalso; exact (NOTLIVE _ Q1)|].
         destruct PRE as [[_ P1]|[_ [P1 _]]]; [|rewrite Q1 in P1; discriminate].
-        rewrite Q1 in P1. inversion P1; subst k'. left. split; auto. apply OLDIFF. split; auto.
-    - intros k' [j [Q1 Q2]]. exists j. destruct (VF j) as [V1 [V2 [V3 [V4 [V5 V6]]]]]. rewrite STF, V4.
+        rewrite Q1 in P1. inversion P1; subst k'. left. split; auto. apply OLDIFF. split; auto. }
+    split.
+    { intros k' [j [Q1 Q2]]. exists j. destruct (VF j) as [V1 [V2 [V3 [V4 [V5 V6]]]]]. rewrite STF, V4.
       destruct (Nat.eqb_spec j j0) as [Ej|Ej]; [|auto]. rewrite Ej in Q1. exfalso. exact (NOTLIVE _ Q1). }
+    split.
+    { intros j Hj. destruct (VF j) as [V1 [V2 [V3 [V4 [V5 V6]]]]]. rewrite STF, V3, V4, VC.
+      destruct (Nat.eqb_spec j j0); [contradiction|]. repeat split; auto. apply S3ch. exact Hj. }
+    destruct (VF j0) as [V1 [V2 [V3 [V4 [V5 V6]]]]]. rewrite Nat.eqb_refl in V3, V4.
+    destruct PRE as [[P0 P1]|[P0 [P1 P2]]].
+    - right. left. rewrite VC, S3c0, P0, V3, V4. repeat split; auto.
+    - right. right. rewrite VC, S3c0, P0. auto. }
   assert (CV3 : c_valid (child_at s3 j0) = c_valid (nth j0 (d_ch s3) child0)) by reflexivity.
+  assert (PUBV : forall po, bit j0 (upd po (d_pub s3)) = val po (dp s j0)).
+  { intros po. assert (LP : length (d_pub s3) = ks_cap ks') by (rewrite S3p; exact Ep).
+    destruct (UPD po (d_pub s3) j0 LP) as [_ U]. rewrite U, Nat.eqb_refl, BP. reflexivity. }
+  assert (NOTT : ir_constructed r = false -> (c_lmt (nth j0 (d_ch s3) child0) =? t)%Z = false -> c_lmt (child_at s j0) = t -> False).
+  { intros CF E Q. rewrite S3c0, CF in E. apply Z.eqb_neq in E. contradiction. }
   destruct (bit j0 (d_rem s3)) eqn:RB.
   - (* remove-then-add: the removal mark is dropped, the value is published again *)
-    injection H as Hi Hc Hs; rewrite <- ?Hi, <- ?Hc, <- ?Hs; clear Hi Hc Hs.
     assert (RS : dr s j0 = true) by congruence.
     assert (PS : dst s j0 = mkSlot SPend k).
     { destruct PRE as [[_ P1]|[_ [P1 _]]]; auto. rewrite P1 in B0. cbn in B0. destruct B0 as [_ [B0 _]]. congruence. }
     assert (CONF : ir_constructed r = false).
     { destruct PRE as [[P1 _]|[_ [P1 _]]]; auto. rewrite PS in P1. discriminate. }
-    apply (FIN None (Some false) (Some true)); cbn [val].
-    + cbn [slot_ok]. repeat split; auto; try discriminate. rewrite S3v, CONF. symmetry.
-      rewrite PS in B0. cbn in B0. apply B0. exact RS.
-    + split; auto.
+    unfold d_set_bits in H. cbn [d_ks d_ch d_add d_rem d_mod d_pub d_dt d_lmt d_kslmt] in H.
+    change (set_nth j0 true (d_pub s3)) with (upd (Some true) (d_pub s3)) in H.
+    unfold child_at in H. cbn [d_ch] in H. rewrite (PUBV (Some true)), CONF in H. cbn [val negb andb] in H.
+    destruct (c_lmt (nth j0 (d_ch s3) child0) =? t)%Z eqn:CD;
+      cbn [d_ks d_ch d_add d_rem d_mod d_pub d_dt d_lmt d_kslmt] in H;
+      injection H as Hi Hc Hs; rewrite <- ?Hi, <- ?Hc, <- ?Hs; clear Hi Hc Hs.
+    + apply (FIN None (Some false) (Some true) (Some true)); cbn [val].
+      * cbn [slot_ok]. repeat split; auto; try discriminate. rewrite S3v, CONF. symmetry.
+        rewrite PS in B0. cbn in B0. apply B0. exact RS.
+      * split; auto.
+      * auto.
+    + apply (FIN None (Some false) None (Some true)); cbn [val].
+      * cbn [slot_ok]. repeat split; auto; try discriminate. rewrite S3v, CONF. symmetry.
+        rewrite PS in B0. cbn in B0. apply B0. exact RS.
+      * split; auto.
+      * intros CF Q _. exfalso. exact (NOTT CF eq_refl Q).
   - destruct (c_valid (child_at s3 j0)) eqn:CV.
     + (* the pending slot of an element that was added and removed in this cycle, child still valid *)
-      injection H as Hi Hc Hs; rewrite <- ?Hi, <- ?Hc, <- ?Hs; clear Hi Hc Hs.
       assert (RS : dr s j0 = false) by congruence.
-      apply (FIN (Some true) None (Some true)); cbn [val].
-      * cbn [slot_ok]. rewrite <- CV3. repeat split; auto.
-      * split; [intros [_ Q]; discriminate|intros [_ Q]; congruence].
+      unfold d_set_bits in H. cbn [d_ks d_ch d_add d_rem d_mod d_pub d_dt d_lmt d_kslmt] in H.
+      change (set_nth j0 true (d_pub s3)) with (upd (Some true) (d_pub s3)) in H.
+      unfold child_at in H. cbn [d_ch] in H. rewrite (PUBV (Some true)) in H. cbn [val andb] in H. rewrite andb_true_r in H.
+      destruct (negb (ir_constructed r) && (c_lmt (nth j0 (d_ch s3) child0) =? t)%Z) eqn:CD;
+        cbn [d_ks d_ch d_add d_rem d_mod d_pub d_dt d_lmt d_kslmt] in H;
+        injection H as Hi Hc Hs; rewrite <- ?Hi, <- ?Hc, <- ?Hs; clear Hi Hc Hs.
+      * apply (FIN (Some true) None (Some true) (Some true)); cbn [val].
+        -- cbn [slot_ok]. rewrite <- CV3. repeat split; auto.
+        -- split; [intros [_ Q]; discriminate|intros [_ Q]; congruence].
+        -- auto.
+      * apply (FIN (Some true) None None (Some true)); cbn [val].
+        -- cbn [slot_ok]. rewrite <- CV3. repeat split; auto; discriminate.
+        -- split; [intros [_ Q]; discriminate|intros [_ Q]; congruence].
+        -- intros CF Q _. exfalso. rewrite CF in CD. cbn [negb andb] in CD. exact (NOTT CF CD Q).
     + (* a brand-new key (child not yet written), or a resurrected never-published one *)
-      injection H as Hi Hc Hs; rewrite <- ?Hi, <- ?Hc, <- ?Hs; clear Hi Hc Hs.
       assert (RS : dr s j0 = false) by congruence.
-      apply (FIN None None None); cbn [val].
+      assert (CDF : negb (ir_constructed r) && bit j0 (d_pub s3) && (c_lmt (child_at s3 j0) =? t)%Z = false).
+      { rewrite BP, PZ, andb_false_r. reflexivity. }
+      rewrite CDF in H.
+      injection H as Hi Hc Hs; rewrite <- ?Hi, <- ?Hc, <- ?Hs; clear Hi Hc Hs.
+      apply (FIN None None None None); cbn [val].
       * cbn [slot_ok]. rewrite <- CV3, AZ, PZ. repeat split; auto; discriminate.
       * rewrite PZ. split; [intros [Q _]; discriminate|intros [_ Q]; congruence].
+      * rewrite PZ. intros _ _ Q. discriminate.
 Qed.
 
 (* ------------------------------------------------------------------ a generic single-slot update (no growth) *)
@@ -428,16 +486,19 @@ Proof. reflexivity. Qed.
 
 Lemma d_remove_core_spec t k s ch s' :
   DInv s -> d_remove_core t k s = (ch, s') ->
-  DInv s' /\ d_dt s' = d_dt s /\ d_lmt s' = d_lmt s /\ (forall k', inDOld s' k' <-> inDOld s k').
+  DInv s' /\ d_dt s' = d_dt s /\ d_lmt s' = d_lmt s /\ (forall k', inDOld s' k' <-> inDOld s k') /\
+  ( (ch = false /\ s' = s)
+ \/ (ch = true /\ exists i, dst s i = mkSlot SLive k /\ dst s' i = mkSlot SPend k /\ (forall j, child_at s' j = child_at s j) /\
+        (forall j, j <> i -> dst s' j = dst s j /\ dm s' j = dm s j /\ dp s' j = dp s j)) ).
 Proof.
   intros T H. unfold d_remove_core in H.
   destruct (find_live (d_ks s) k) as [i|] eqn:F.
-  2:{ injection H as Hc Hs. rewrite <- Hs. split; [exact T|]. split; [reflexivity|]. split; [reflexivity|]. intros k'; reflexivity. }
+  2:{ injection H as Hc Hs. rewrite <- Hs, <- Hc. split; [exact T|]. split; [reflexivity|]. split; [reflexivity|]. split; [intros k'; reflexivity|]. left; auto. }
   pose proof (find_live_some _ _ _ F) as LV. fold (dst s i) in LV.
   destruct (k_remove_slot i (d_ks s)) as [ok ks'] eqn:KR.
   destruct (k_remove_slot_spec i (d_ks s) ok ks' (di_k s T) KR) as [Hf Ht].
   destruct ok; cbn [negb] in H.
-  2:{ injection H as Hc Hs. rewrite <- Hs. split; [exact T|]. split; [reflexivity|]. split; [reflexivity|]. intros k'; reflexivity. }
+  2:{ injection H as Hc Hs. rewrite <- Hs, <- Hc. split; [exact T|]. split; [reflexivity|]. split; [reflexivity|]. split; [intros k'; reflexivity|]. left; auto. }
   destruct (Ht eq_refl) as [_ [K' [CP [_ SL]]]].
   assert (Li : i < ks_cap ks').
   { rewrite CP. apply slot_at_lt_of_state. fold (dst s i). rewrite LV. discriminate. }
@@ -449,25 +510,25 @@ Proof.
   fold (dp s i) (da s i) in H.
   destruct (dp s i) eqn:P.
   - destruct (da s i) eqn:A.
-    + injection H as Hc Hs. rewrite <- Hs. unfold d_set_bits. cbn [d_ks d_ch d_add d_rem d_mod d_pub d_dt d_lmt d_kslmt].
+    + injection H as Hc Hs. rewrite <- Hs, <- Hc. unfold d_set_bits. cbn [d_ks d_ch d_add d_rem d_mod d_pub d_dt d_lmt d_kslmt].
       destruct (d_update_slot s ks' i k SLive SPend (Some false) None (Some false) (Some false) None (d_dt s) (d_lmt s) (rec_mod t (d_kslmt s))
-                  T K' CP Li LV ltac:(discriminate) SL') as [D [O _]].
+                  T K' CP Li LV ltac:(discriminate) SL') as [D [O [S0 [_ [_ [_ [_ [_ OTH]]]]]]]].
       * cbn [valb slot_ok]. rewrite B1. repeat split; auto; intros Q; discriminate Q.
       * cbn [valb]. rewrite A, P, B1. unfold oldp. split; intros [[Q1 [Q2 Q3]]|[Q1 Q2]]; discriminate.
-      * split; [exact D|]. split; [reflexivity|]. split; [reflexivity|exact O].
-    + injection H as Hc Hs. rewrite <- Hs. unfold d_set_bits. cbn [d_ks d_ch d_add d_rem d_mod d_pub d_dt d_lmt d_kslmt].
+      * split; [exact D|]. split; [reflexivity|]. split; [reflexivity|]. split; [exact O|]. right. split; [reflexivity|]. exists i. split; [exact LV|]. split; [exact S0|]. split; [intros j; reflexivity|]. intros j Hj. destruct (OTH j Hj) as [X0 [_ [_ [X3 [X4 _]]]]]. auto.
+    + injection H as Hc Hs. rewrite <- Hs, <- Hc. unfold d_set_bits. cbn [d_ks d_ch d_add d_rem d_mod d_pub d_dt d_lmt d_kslmt].
       destruct (d_update_slot s ks' i k SLive SPend None (Some true) (Some false) (Some false) None (d_dt s) (d_lmt s) (rec_mod t (d_kslmt s))
-                  T K' CP Li LV ltac:(discriminate) SL') as [D [O _]].
+                  T K' CP Li LV ltac:(discriminate) SL') as [D [O [S0 [_ [_ [_ [_ [_ OTH]]]]]]]].
       * cbn [valb slot_ok]. rewrite A. repeat split; auto; intros _; rewrite <- B4; reflexivity.
       * cbn [valb]. rewrite A, P. unfold oldp. split; intros _; [left|right]; auto.
-      * split; [exact D|]. split; [reflexivity|]. split; [reflexivity|exact O].
-  - injection H as Hc Hs. rewrite <- Hs. cbn [d_ks d_ch d_add d_rem d_mod d_pub d_dt d_lmt d_kslmt].
+      * split; [exact D|]. split; [reflexivity|]. split; [reflexivity|]. split; [exact O|]. right. split; [reflexivity|]. exists i. split; [exact LV|]. split; [exact S0|]. split; [intros j; reflexivity|]. intros j Hj. destruct (OTH j Hj) as [X0 [_ [_ [X3 [X4 _]]]]]. auto.
+  - injection H as Hc Hs. rewrite <- Hs, <- Hc. cbn [d_ks d_ch d_add d_rem d_mod d_pub d_dt d_lmt d_kslmt].
     assert (A : da s i = false) by (destruct (da s i); auto; discriminate (B2 eq_refl)).
     destruct (d_update_slot s ks' i k SLive SPend None None (Some false) None None (d_dt s) (d_lmt s) (rec_mod t (d_kslmt s))
-                T K' CP Li LV ltac:(discriminate) SL') as [D [O _]].
+                T K' CP Li LV ltac:(discriminate) SL') as [D [O [S0 [_ [_ [_ [_ [_ OTH]]]]]]]].
     + cbn [valb slot_ok]. rewrite A, B1, P. repeat split; auto; intros Q; discriminate Q.
     + cbn [valb]. rewrite A, P, B1. unfold oldp. split; intros [[Q1 [Q2 Q3]]|[Q1 Q2]]; discriminate.
-    + split; [exact D|]. split; [reflexivity|]. split; [reflexivity|exact O].
+    + split; [exact D|]. split; [reflexivity|]. split; [reflexivity|]. split; [exact O|]. right. split; [reflexivity|]. exists i. split; [exact LV|]. split; [exact S0|]. split; [intros j; reflexivity|]. intros j Hj. destruct (OTH j Hj) as [X0 [_ [_ [X3 [X4 _]]]]]. auto.
 Qed.
 
 (* ------------------------------------------------------------------ writing the TS<int> child of a live key *)
@@ -492,9 +553,18 @@ Proof. intros H. unfold c_valid, MIN_DT. cbn [c_lmt]. destruct (Z.eqb_spec t 0);
 Lemma tsd_child_write_spec t i v k s :
   DInv s -> dst s i = mkSlot SLive k -> d_dt s = t -> (0 < t)%Z ->
   let s' := tsd_child_write t i v s in
-  DInv s' /\ d_dt s' = t /\ (forall k', inDOld s' k' <-> inDOld s k') /\ dst s' i = mkSlot SLive k.
+  DInv s' /\ d_dt s' = t /\ (forall k', inDOld s' k' <-> inDOld s k') /\ dst s' i = mkSlot SLive k /\
+  (forall j, j <> i -> dst s' j = dst s j /\ dm s' j = dm s j /\ dp s' j = dp s j /\ child_at s' j = child_at s j) /\
+  ( ((c_lmt (child_at s i) < t)%Z /\ child_at s' i = mkC v t /\ dm s' i = true /\ dp s' i = true /\ d_lmt s' = rec_mod t (d_lmt s))
+ \/ ((t <= c_lmt (child_at s i))%Z /\ child_at s' i = mkC v (c_lmt (child_at s i)) /\ dm s' i = dm s i /\ dp s' i = dp s i /\
+      d_lmt s' = d_lmt s) ).
 Proof.
   intros T LV DT PT. unfold tsd_child_write.
+  assert (CHAT : forall c a r m p dtf lmtf kl j,
+            child_at (mkD (d_ks s) (set_nth i c (d_ch s)) a r m p dtf lmtf kl) j = if j =? i then c else child_at s j).
+  { intros c a r m p dtf lmtf kl j. unfold child_at. cbn [d_ch]. rewrite nth_set_nth_ch.
+    destruct (Nat.eqb_spec j i) as [E|E]; [|reflexivity].
+    rewrite ltb_true; [reflexivity|]. rewrite (di_lc s T). apply slot_at_lt_of_state. fold (dst s i). rewrite LV. discriminate. }
   assert (Li : i < ks_cap (d_ks s)).
   { apply slot_at_lt_of_state. fold (dst s i). rewrite LV. discriminate. }
   pose proof (di_bits s T i) as B. rewrite LV in B. cbn [s_st slot_ok] in B. destruct B as [B1 [B2 [B3 B4]]].
@@ -513,22 +583,28 @@ Proof.
     destruct (bit i (d_pub s)) eqn:P; change (bit i (d_pub s)) with (dp s i) in P;
       unfold d_mark; cbn [d_ks d_ch d_add d_rem d_mod d_pub d_dt d_lmt d_kslmt].
     + destruct (d_update_slot s (d_ks s) i k SLive SLive None None (Some true) None (Some (mkC v t)) (d_dt s) (rec_mod t (d_lmt s)) (d_kslmt s)
-                  T (di_k s T) eq_refl Li LV ltac:(discriminate) (kinv_self_slot s i SLive k LV)) as [D [O [S0 _]]].
+                  T (di_k s T) eq_refl Li LV ltac:(discriminate) (kinv_self_slot s i SLive k LV)) as [D [O [S0 [_ [_ [M0 [P0 [_ OTH]]]]]]]].
       * cbn [valb slot_ok]. rewrite B1, P, c_valid_mk by exact PT. repeat split; auto.
       * cbn [valb]. tauto.
-      * split; [exact D|]. split; [exact DT|]. split; [exact O|exact S0].
+      * split; [exact D|]. split; [exact DT|]. split; [exact O|]. split; [exact S0|].
+        split; [intros j Hj; destruct (OTH j Hj) as [X0 [_ [_ [X3 [X4 _]]]]]; rewrite CHAT; destruct (Nat.eqb_spec j i); [contradiction|auto]|].
+        left. rewrite CHAT, Nat.eqb_refl. cbn [valb] in M0, P0. repeat split; auto; congruence.
     + assert (A : da s i = false) by (destruct (da s i) eqn:E; auto; specialize (B2 eq_refl); congruence).
       destruct (d_update_slot s (d_ks s) i k SLive SLive (Some true) None (Some true) (Some true) (Some (mkC v t)) (d_dt s) (rec_mod t (d_lmt s)) (d_kslmt s)
-                  T (di_k s T) eq_refl Li LV ltac:(discriminate) (kinv_self_slot s i SLive k LV)) as [D [O [S0 _]]].
+                  T (di_k s T) eq_refl Li LV ltac:(discriminate) (kinv_self_slot s i SLive k LV)) as [D [O [S0 [_ [_ [M0 [P0 [_ OTH]]]]]]]].
       * cbn [valb slot_ok]. rewrite B1, c_valid_mk by exact PT. repeat split; auto.
       * cbn [valb]. rewrite A, P. unfold oldp. split; intros [[Q1 [Q2 Q3]]|[Q1 Q2]]; discriminate.
-      * split; [exact D|]. split; [exact DT|]. split; [exact O|exact S0].
+      * split; [exact D|]. split; [exact DT|]. split; [exact O|]. split; [exact S0|].
+        split; [intros j Hj; destruct (OTH j Hj) as [X0 [_ [_ [X3 [X4 _]]]]]; rewrite CHAT; destruct (Nat.eqb_spec j i); [contradiction|auto]|].
+        left. rewrite CHAT, Nat.eqb_refl. cbn [valb] in M0, P0. repeat split; auto; congruence.
   - (* a second write in the same cycle: only the value changes *)
     destruct (d_update_slot s (d_ks s) i k SLive SLive None None None None (Some (mkC v (c_lmt (child_at s i)))) (d_dt s) (d_lmt s) (d_kslmt s)
-                T (di_k s T) eq_refl Li LV ltac:(discriminate) (kinv_self_slot s i SLive k LV)) as [D [O [S0 _]]].
+                T (di_k s T) eq_refl Li LV ltac:(discriminate) (kinv_self_slot s i SLive k LV)) as [D [O [S0 [_ [_ [M0 [P0 [_ OTH]]]]]]]].
     + cbn [valb slot_ok]. repeat split; auto.
     + cbn [valb]. tauto.
-    + cbn [updb updc] in *. split; [exact D|]. split; [exact DT|]. split; [exact O|exact S0].
+    + split; [exact D|]. split; [exact DT|]. split; [exact O|]. split; [exact S0|].
+      split; [intros j Hj; destruct (OTH j Hj) as [X0 [_ [_ [X3 [X4 _]]]]]; rewrite CHAT; destruct (Nat.eqb_spec j i); [contradiction|auto]|].
+      right. rewrite CHAT, Nat.eqb_refl. cbn [valb] in M0, P0. repeat split; auto.
 Qed.
 
 (* ------------------------------------------------------------------ one engine cycle *)
@@ -595,7 +671,7 @@ Proof.
   intros C A. destruct (d_prepare_step V0 t s C) as [T [D O]].
   unfold tsd_erase in A. rewrite d_remove_key_eq in A.
   destruct (d_remove_core t k (d_prepare t s)) as [c s1] eqn:RC.
-  destruct (d_remove_core_spec t k _ c s1 T RC) as [T1 [D1 [_ O1]]].
+  destruct (d_remove_core_spec t k _ c s1 T RC) as [T1 [D1 [_ [O1 _]]]].
   assert (M1 : DMid V0 t s1) by (split; [exact T1|split; [congruence|intros k'; rewrite O1; apply O]]).
   injection A as Hc Hs. rewrite <- Hs. destruct c.
   - apply d_mark_step. exact M1.
@@ -824,19 +900,25 @@ Section TsdTheorems.
   Proof. destruct tsd_facts as [_ [_ [_ M]]]. exact M. Qed.
 End TsdTheorems.
 
-(* ------------------------------------------------------------------ the value part is FALSE of the faithful model *)
-(* "value' = value with the delta (removed keys, modified items) applied" fails for a key that is written,
-   erased and written again within one cycle: the key is live with a new value but is not among the
-   modified keys.  Witness: one cycle  set(2,9); erase(2); set(2,3)  on the empty dictionary. *)
+(* ------------------------------------------------------------------ the value part of the step statement *)
+(* "value' = value with the delta (removed keys, modified items) applied": every key that is neither removed
+   nor modified keeps its value (and stays absent if it was absent). *)
 Definition tsd_apply_delta_ok (a : tsd) (t : Z) (b : tsd) : Prop :=
   forall k, ~ In k (tsd_removed t b) -> ~ In k (tsd_modified_keys t b) -> tsd_get b k = tsd_get a k.
 
-Lemma tsd_value_step_refuted_l :
-  exists h a t ops b, dincreasing MIN_DT h /\ In (a, t, ops, b) (tsd_trace tsd_empty h) /\ ~ tsd_apply_delta_ok a t b.
+(* HISTORY: under the insert rule hgraph had before the repair (CollOld.d_insert_key_old) the statement was false:
+   a key written, erased and written again within one cycle carried a new value without being modified.
+   Witness: one cycle  set(2,9); erase(2); set(2,3)  on the empty dictionary. *)
+Lemma tsd_value_step_old_rule_refuted_l :
+  exists t ops, 0 < t /\ ~ tsd_apply_delta_ok tsd_empty t (tsd_cycle_old t ops tsd_empty).
 Proof.
-  exists [(1, [DSet 2 9; DErase 2; DSet 2 3])], tsd_empty, 1, [DSet 2 9; DErase 2; DSet 2 3],
-         (tsd_cycle 1 [DSet 2 9; DErase 2; DSet 2 3] tsd_empty).
-  split; [cbn; unfold MIN_DT; lia|]. split; [left; reflexivity|].
+  exists 1, [DSet 2 9; DErase 2; DSet 2 3]. split; [lia|].
   intros H. specialize (H 2). vm_compute in H.
   assert (Q : Some 3 = @None Z) by (apply H; intros []). discriminate.
 Qed.
+
+(* the same cycle under the repaired rule reports the key as modified *)
+Lemma tsd_repaired_witness :
+  let b := tsd_cycle 1 [DSet 2 9; DErase 2; DSet 2 3] tsd_empty in
+  tsd_modified_keys 1 b = [2] /\ tsd_added 1 b = [2] /\ tsd_get b 2 = Some 3.
+Proof. vm_compute. auto. Qed.
